@@ -24,7 +24,7 @@ EXTENDS Naturals, Sequences, FiniteSets, TLC, Json, SequencesExt
 
 CONSTANTS MaxLen, Mode, InFile, OutFile
 
-Pool == {"A1", "A2", "B", "B2", "C1", "C2", "N", "W", "V", "X", "R", "R2", "E"}
+Pool == {"A1", "A2", "B", "B2", "C1", "C2", "N", "W", "V", "X", "R", "R2", "I1", "I2", "E"}
 Apis == {"ExpandSchema", "WithBasePath"}
 
 RECURSIVE Seqs(_)
